@@ -192,3 +192,87 @@ Definition obj_life (junk : nat -> option fid) (k : cls) (ths : list (Z * list o
   : list fid * ocfg :=
   let ic := class_initialize junk k in
   (run_constructors ic, run (run_destructors ic) (init ths) sched).
+
+(* ------------------------------------------------------------------ *)
+(* (c) first use: several threads create an object of the SAME not yet initialised
+   class at about the same time.  parsec_obj_new reads cls_initialized (plain); when 0 it
+   calls parsec_class_initialize: plain test again, parsec_atomic_lock(&class_lock), the
+   re-test under the lock, the two loops (model (a)), cls_initialized = 1, save_class,
+   parsec_atomic_unlock.  Then obj_reference_count = 1, the constructors, and the thread's
+   own retain/release list on its own object.  Scheduling points (interpose.h): in front of
+   the lock acquisition (a failed attempt is a stutter step), in front of the unlock, in
+   front of every fetch-add.  [recheck = false] is the code WITHOUT the re-test under the
+   lock (kept for the refuted witness only). *)
+Inductive fpc := FStart | FLock | FUnlock | FOps.
+Inductive fev := FCtor (f : fid) | FUpd (v : Z) | FDtor (f : fid) | FFree.
+Record fthr := { f_pc : fpc; f_rc : Z; f_ops : list op; f_ev : list fev }.
+Record kstate := { k_init : bool;              (* cls_initialized *)
+                   k_tab : option icls;        (* cls_depth, the arrays; None = NULL *)
+                   k_inits : Z;                (* how many times the arrays were built (num_classes) *)
+                   k_lock : bool }.            (* class_lock *)
+Record fcfg := { fc_k : kstate; fc_thr : list fthr }.
+
+Definition tab_ctors (ks : kstate) : list fid :=
+  match k_tab ks with Some ic => run_constructors ic | None => [] end.
+Definition tab_dtors (ks : kstate) : list fid :=
+  match k_tab ks with Some ic => run_destructors ic | None => [] end.
+Definition fthr_done (th : fthr) : bool :=
+  match f_pc th, f_ops th with FOps, [] => true | _, _ => false end.
+
+Definition fstep (recheck : bool) (junk : nat -> option fid) (k : cls) (c : fcfg) (t : nat) : fcfg :=
+  match nth_error (fc_thr c) t with
+  | None => c
+  | Some th =>
+    let ks := fc_k c in
+    match f_pc th with
+    | FStart =>                              (* malloc; if (0 == cls->cls_initialized) ... *)
+      if k_init ks
+      then {| fc_k := ks;
+              fc_thr := upd (fc_thr c) t {| f_pc := FOps; f_rc := 1; f_ops := f_ops th;
+                                            f_ev := map FCtor (tab_ctors ks) |} |}
+      else {| fc_k := ks;
+              fc_thr := upd (fc_thr c) t {| f_pc := FLock; f_rc := f_rc th; f_ops := f_ops th; f_ev := f_ev th |} |}
+    | FLock =>                               (* one attempt to take class_lock *)
+      if k_lock ks then c
+      else if recheck && k_init ks
+      then {| fc_k := {| k_init := k_init ks; k_tab := k_tab ks; k_inits := k_inits ks; k_lock := true |};
+              fc_thr := upd (fc_thr c) t {| f_pc := FUnlock; f_rc := f_rc th; f_ops := f_ops th; f_ev := f_ev th |} |}
+      else {| fc_k := {| k_init := true; k_tab := Some (class_initialize junk k);
+                         k_inits := k_inits ks + 1; k_lock := true |};
+              fc_thr := upd (fc_thr c) t {| f_pc := FUnlock; f_rc := f_rc th; f_ops := f_ops th; f_ev := f_ev th |} |}
+    | FUnlock =>                             (* unlock; obj_reference_count = 1; constructors *)
+      {| fc_k := {| k_init := k_init ks; k_tab := k_tab ks; k_inits := k_inits ks; k_lock := false |};
+         fc_thr := upd (fc_thr c) t {| f_pc := FOps; f_rc := 1; f_ops := f_ops th;
+                                       f_ev := map FCtor (tab_ctors ks) |} |}
+    | FOps =>
+      match f_ops th with
+      | [] => c
+      | o :: rest =>
+        let v := wrap32 (f_rc th + op_inc o) in
+        let destroy := match o with Release => v =? 0 | Retain => false end in
+        {| fc_k := ks;
+           fc_thr := upd (fc_thr c) t
+             {| f_pc := FOps; f_rc := v; f_ops := rest;
+                f_ev := f_ev th ++ FUpd v :: (if destroy then map FDtor (tab_dtors ks) ++ [FFree] else []) |} |}
+      end
+    end
+  end.
+
+Definition finit (opss : list (list op)) : fcfg :=
+  {| fc_k := {| k_init := false; k_tab := None; k_inits := 0; k_lock := false |};
+     fc_thr := map (fun ops => {| f_pc := FStart; f_rc := 1; f_ops := ops; f_ev := [] |}) opss |}.
+Definition frun (recheck : bool) junk k (c : fcfg) (sched : list nat) : fcfg :=
+  fold_left (fstep recheck junk k) sched c.
+
+(* each thread works on its own object: one reference from PARSEC_OBJ_NEW, a disciplined
+   list that releases everything, no int32 overflow *)
+Definition first_use_ok (opss : list (list op)) : Prop :=
+  Forall (fun ops => disc 1 ops = true /\ 1 + retains ops < 2147483648 /\
+                     1 + sumz (map op_inc ops) = 0) opss.
+(* what a thread's log must look like *)
+Definition life_running (k : cls) (e : list fev) : Prop :=
+  exists us, e = map FCtor (rev (ctors_of k)) ++ map FUpd us /\ Forall (fun v => 1 <= v) us.
+Definition life_complete (k : cls) (e : list fev) : Prop :=
+  exists us, e = map FCtor (rev (ctors_of k)) ++ map FUpd us ++ FUpd 0 :: map FDtor (dtors_of k) ++ [FFree]
+             /\ Forall (fun v => 1 <= v) us.
+Definition is_unlock (th : fthr) : bool := match f_pc th with FUnlock => true | _ => false end.
